@@ -31,8 +31,9 @@ type Frame struct {
 }
 
 type State struct {
-	nested                                           bool    // inside callNested (no forks allowed)
-	lastResults                                      []Value // results of the outermost frame's return
+	reachSeq                                         []string // vReach labels in the order this path witnessed them
+	nested                                           bool     // inside callNested (no forks allowed)
+	lastResults                                      []Value  // results of the outermost frame's return
 	heap                                             map[int]Value
 	frames                                           []*Frame
 	pc                                               []*Term
@@ -85,18 +86,19 @@ func (st *State) clone() *State {
 		vars:      append([]*Term(nil), st.vars...),
 		varSeq:    st.varSeq,
 		panicking: st.panicking, panicVal: st.panicVal, recovered: st.recovered,
-		steps:   st.steps,
-		trace:   append([]string(nil), st.trace...),
-		nextObj: st.nextObj,
-		hvars:   append([]int(nil), st.hvars...),
-		events:  append([]Event(nil), st.events...),
-		hashBuf: map[int][]Value{},
-		lockv:   map[string]int{},
-		pools:   map[int][]Value{},
-		crcApps: append([][]*Term(nil), st.crcApps...),
-		pendA:   append([]pendAssert(nil), st.pendA...),
-		model:   st.model,
-		modelN:  st.modelN,
+		steps:    st.steps,
+		trace:    append([]string(nil), st.trace...),
+		nextObj:  st.nextObj,
+		hvars:    append([]int(nil), st.hvars...),
+		events:   append([]Event(nil), st.events...),
+		hashBuf:  map[int][]Value{},
+		lockv:    map[string]int{},
+		pools:    map[int][]Value{},
+		crcApps:  append([][]*Term(nil), st.crcApps...),
+		pendA:    append([]pendAssert(nil), st.pendA...),
+		reachSeq: append([]string(nil), st.reachSeq...),
+		model:    st.model,
+		modelN:   st.modelN,
 	}
 	if st.ivFacts != nil {
 		n.ivFacts = make(map[*Term]aval, len(st.ivFacts))
@@ -228,6 +230,8 @@ type Engine struct {
 	tier            int
 	pin             map[int]uint64
 	samples         []string
+	agree           []AgreeSample
+	agreeMax        int
 	maxSwitch       int
 	noAbs           bool
 	audit           bool
